@@ -22,6 +22,7 @@ EXPLANATION = (
     "write_string_complex the copy cursor is advanced past every escaped byte on every path."
     " Later additions: the JSON keys of Resource (incl. `permission`) are the established ones and PermissionMask / Resource / ResourceType decode through serde's derived code (errors are not swallowed into the default mask); the exception bin is keyed by the script text alone (C16.2); use_resources replaces the storage (C13.5); neither legacy conversion filters entries (the empty string is the blanket exception)."
     " Round 6: recursive_dependencies reports Ok only after the gate accepted this rule's permission, and tests `already present` on the resolved resource's name; a scriptlet exception removes exactly the identical injection (C16.6 borrowed)."
+    ' Round 8: PermissionMask::from_bits / default / | / |= as expressions; the dependency walk is cut short only at resources the SAME walk has checked (its `seen` list is created empty for every rule), F-C18-3 repaired.'
 )
 NOT_DECIDED = ("That the emitted literal round-trips for every string (value level); +js argument-list "
                "unescaping semantics; identical-injection exception matching is checked in C16.")
